@@ -188,6 +188,16 @@ Fixpoint forallb2 {A} (f : A -> A -> bool) (a b : list A) : bool :=
   | _, _ => false
   end.
 
+(* the FftField constants of an extension field are the base-prime-field constants embedded:
+   coordinates (c, 0, ..., 0); an Option is a list of length <= 1 *)
+Definition embeds_ok (x : list Z) (c deg : Z) : bool := lists_eqb x (c :: repeat 0 (Z.to_nat deg - 1)).
+Definition opt_embeds_ok (o : list (list Z)) (c : list Z) (deg : Z) : bool :=
+  match o, c with
+  | [], [] => true
+  | [w], [v] => embeds_ok w v deg
+  | _, _ => false
+  end.
+
 (* ------------------------------------------------------------------ BigZ field dictionary *)
 
 Fixpoint begcd (fuel : nat) (r0 r1 s0 s1 : bigZ) : bigZ * bigZ :=
@@ -229,6 +239,11 @@ Definition Z1 (p : Z) : Fops Z := ZpOps p.
 Definition Z2 (p beta : Z) := QuadOps (Z1 p) (fof (Z1 p) [beta]).
 Definition Z3 (p beta : Z) := CubicOps (Z1 p) (fof (Z1 p) [beta]).
 
+(* further tower levels: quadratic / cubic extension of any dictionary by the non-residue with the
+   given base-prime-field coordinates (Fp4 = BQ Fp2, Fp6 = BC Fp2 or BQ Fp3, Fp12 = BQ Fp6) *)
+Definition BQ {T} (F : Fops T) (nr : list Z) := QuadOps F (fof F nr).
+Definition BC {T} (F : Fops T) (nr : list Z) := CubicOps F (fof F nr).
+
 (* ------------------------------------------------------------------ field-level checkers *)
 
 Section FieldChecks.
@@ -254,6 +269,12 @@ Section FieldChecks.
   Definition swu_exceptional_ok (q : Z) (a b z : list Z) : bool :=
     let x := el b * finv F (el z * el a) in
     Z.odd q && feqb F (fpow F (x * x * x + el a * x + el b) ((q - 1) / 2)) (f1 F).
+  (* FftField roots of unity, exact order computed in the field itself *)
+  Definition fft_root_ok (root : list Z) (s : Z) : bool :=
+    (0 <? s) && pow_is root (2 ^ s) [1] && pow_is root (2 ^ (s - 1)) [-1].
+  Definition fft_large_ok (w : list Z) (s b k : Z) : bool :=
+    let n := Z.mul (2 ^ s) (b ^ k) in
+    (0 <? s) && (1 <? b) && (0 <? k) && pow_is w n [1] && pow_isnt w (n / 2) [1] && pow_isnt w (n / b) [1].
   (* coordinates of x^2, x^3 -- used for twist coefficients *)
   Definition tower_sq (a : list Z) : list Z := fcoords F (el a * el a).
   Definition tower_cube (a : list Z) : list Z := fcoords F (el a * el a * el a).
